@@ -40,6 +40,8 @@ func StepDeadline(n int, label string)     {}
 func Go(f func())                          {}
 func Join()                                {}
 func Yield()                               {}
+func SetCPUs(n int)                        {}
+func NondetMapOrder(on bool)               {}
 func SetPreemptionBound(n int)             {}
 func TempDir() string                      { return "/zz/root" }
 func TimeOf(ns int64) time.Time            { return time.Time{} }
